@@ -3,9 +3,10 @@ import Driver.Util
 open Emboss.Types Driver
 
 /-! Line protocol for C13.  Tokens are blank-separated, prefix notation.
-`EXPR <expr>` → `ty=<T> crash=<c|-> errs=<e;e;...>`;
-`TYPE X k e* P k (loc (A|T ty))* L k (e e)* A k e* C k e* S k (loc loc n (ty loc)* g e*)* V k e* T k (loc kind val)*`
-→ `accepted` | `rejected <pass> <errs>` | `crashed <c>`. -/
+`EXPR <file> <expr>` → `ty=<T> errs=<e;e;...>`;
+`TYPE X k (file e)* P k (file loc (A|T ty))* L k (file e e)* A k (file e)* C k (file e)* V k (file e)*
+ S k (file loc file loc n (ty loc)* g e*)* T k (file loc kind signed val)*`
+→ `accepted` | `rejected <pass> <errs>` | `crashed <c>`; an error is `loc@file:class(+loc@file)*`. -/
 
 abbrev P (α : Type) := List String → Option (α × List String)
 
@@ -23,8 +24,7 @@ def pTy : P Ty
   | "I" :: ts => some (.int, ts)
   | "B" :: ts => some (.bool, ts)
   | "O" :: ts => some (.opaque, ts)
-  | "U" :: ts => some (.unset, ts)
-  | "N" :: ts => some (.absent, ts)
+  | "N" :: ts => some (.none, ts)
   | t :: ts => if t.startsWith "E" then (t.drop 1).toString.toNat?.map fun n => (.enum n, ts) else none
   | [] => none
 
@@ -59,14 +59,24 @@ partial def pExpr : P Expr
   | "n" :: ts => do let (l, ts) ← pLoc ts; pure (.num l, ts)
   | "b" :: ts => do let (l, ts) ← pLoc ts; pure (.boolc l, ts)
   | "e" :: ts => do let (l, ts) ← pLoc ts; let (n, ts) ← pNat ts; pure (.enumv l n, ts)
-  | "cp" :: ts => do let (l, ts) ← pLoc ts; let (d, ts) ← pLoc ts; pure (.cphys l d, ts)
-  | "cv" :: ts => do let (l, ts) ← pLoc ts; let (d, ts) ← pExpr ts; pure (.cvirt l d, ts)
+  | "cp" :: ts => do
+    let (l, ts) ← pLoc ts; let (df, ts) ← pNat ts; let (d, ts) ← pLoc ts; pure (.cphys l df d, ts)
+  | "cv" :: ts => do
+    let (l, ts) ← pLoc ts; let (df, ts) ← pNat ts; let (d, ts) ← pExpr ts; pure (.cvirt l df d, ts)
   | "co" :: ts => do let (l, ts) ← pLoc ts; pure (.cother l, ts)
   | "lp" :: ts => do let (l, ts) ← pLoc ts; let (t, ts) ← pDTy ts; pure (.lparam l t, ts)
   | "la" :: ts => do let (l, ts) ← pLoc ts; pure (.lparamArr l, ts)
   | "lf" :: ts => do let (l, ts) ← pLoc ts; let (t, ts) ← pDTy ts; pure (.lphys l t, ts)
-  | "lv" :: ts => do let (l, ts) ← pLoc ts; let (d, ts) ← pExpr ts; pure (.lvirt l d, ts)
-  | "bi" :: ts => do let (l, ts) ← pLoc ts; let (n, ts) ← pNat ts; pure (.builtin l (n != 0), ts)
+  | "lv" :: ts => do
+    let (l, ts) ← pLoc ts; let (df, ts) ← pNat ts; let (d, ts) ← pExpr ts; pure (.lvirt l df d, ts)
+  | "bi" :: ts => do
+    let (l, ts) ← pLoc ts
+    let (n, ts) ← pNat ts
+    match n with
+    | 0 => pure (.builtin l .staticSizeInBits, ts)
+    | 1 => pure (.builtin l .isStaticallySized, ts)
+    | 2 => pure (.builtin l .other, ts)
+    | _ => none
   | "op" :: ts => do
     let (l, ts) ← pLoc ts
     match ts with
@@ -92,17 +102,24 @@ partial def pExpr : P Expr
     | [] => none
   | _ => none
 
+def pFExpr : P FExpr := fun ts => do
+  let (f, ts) ← pNat ts
+  let (e, ts) ← pExpr ts
+  pure ((f, e), ts)
+
 def pParam : P Param := fun ts => do
+  let (f, ts) ← pNat ts
   let (l, ts) ← pLoc ts
   match ts with
-  | "A" :: ts => pure (⟨l, .array⟩, ts)
-  | "T" :: ts => do let (t, ts) ← pDTy ts; pure (⟨l, .atomic t⟩, ts)
+  | "A" :: ts => pure (⟨f, l, .array⟩, ts)
+  | "T" :: ts => do let (t, ts) ← pDTy ts; pure (⟨f, l, .atomic t⟩, ts)
   | _ => none
 
-def pPair : P (Expr × Expr) := fun ts => do
+def pLocation : P (FileId × Expr × Expr) := fun ts => do
+  let (f, ts) ← pNat ts
   let (a, ts) ← pExpr ts
   let (b, ts) ← pExpr ts
-  pure ((a, b), ts)
+  pure ((f, a, b), ts)
 
 def pTyLoc : P (Ty × Loc) := fun ts => do
   let (t, ts) ← pTy ts
@@ -110,67 +127,70 @@ def pTyLoc : P (Ty × Loc) := fun ts => do
   pure ((t, l), ts)
 
 def pPassed : P Passed := fun ts => do
+  let (f, ts) ← pNat ts
   let (l, ts) ← pLoc ts
+  let (df, ts) ← pNat ts
   let (d, ts) ← pLoc ts
   let (ex, ts) ← pCounted pTyLoc ts
   let (g, ts) ← pCounted pExpr ts
-  pure (⟨l, d, ex, g⟩, ts)
+  pure (⟨f, l, df, d, ex, g⟩, ts)
 
 def kindOf : String → Option AKind
-  | "signed" => some .boolConstSigned | "isint" => some .boolConstInteger | "bool" => some .bool
+  | "boolconst" => some .boolConst | "bool" => some .bool
   | "int" => some .intConst | "strlist" => some .strList | "backends" => some .backEnds | _ => none
 
 def pAttr : P Attr := fun ts => do
+  let (f, ts) ← pNat ts
   let (l, ts) ← pLoc ts
   match ts with
-  | k :: ts => do
+  | k :: sg :: ts => do
     let kind ← kindOf k
+    let signed := sg == "1"
     match ts with
-    | "s0" :: ts => pure (⟨l, kind, .str false⟩, ts)
-    | "s1" :: ts => pure (⟨l, kind, .str true⟩, ts)
-    | "x" :: ts => do let (e, ts) ← pExpr ts; pure (⟨l, kind, .expr e⟩, ts)
+    | "s0" :: ts => pure (⟨f, l, kind, signed, .str false⟩, ts)
+    | "s1" :: ts => pure (⟨f, l, kind, signed, .str true⟩, ts)
+    | "x" :: ts => do let (e, ts) ← pExpr ts; pure (⟨f, l, kind, signed, .expr e⟩, ts)
     | _ => none
-  | [] => none
+  | _ => none
 
 def pSection {α : Type} (tag : String) (p : P α) : P (List α)
   | t :: ts => if t == tag then pCounted p ts else none
   | [] => none
 
 def pModule : P Module := fun ts => do
-  let (exprs, ts) ← pSection "X" pExpr ts
+  let (exprs, ts) ← pSection "X" pFExpr ts
   let (params, ts) ← pSection "P" pParam ts
-  let (locs, ts) ← pSection "L" pPair ts
-  let (arrays, ts) ← pSection "A" pExpr ts
-  let (conds, ts) ← pSection "C" pExpr ts
+  let (locs, ts) ← pSection "L" pLocation ts
+  let (arrays, ts) ← pSection "A" pFExpr ts
+  let (conds, ts) ← pSection "C" pFExpr ts
+  let (vals, ts) ← pSection "V" pFExpr ts
   let (passed, ts) ← pSection "S" pPassed ts
-  let (vals, ts) ← pSection "V" pExpr ts
   let (attrs, ts) ← pSection "T" pAttr ts
-  pure (⟨exprs, params, locs, arrays, conds, passed, vals, attrs⟩, ts)
+  pure (⟨exprs, params, locs, arrays, conds, vals, passed, attrs⟩, ts)
 
 def showTy : Ty → String
-  | .int => "I" | .bool => "B" | .enum n => s!"E{n}" | .opaque => "O" | .unset => "U" | .absent => "N"
+  | .int => "I" | .bool => "B" | .enum n => s!"E{n}" | .opaque => "O" | .none => "N"
 
 def showCls : Cls → String
   | .mustInt i => s!"mustInt{i}" | .mustBool i => s!"mustBool{i}" | .mustField i => s!"mustField{i}"
   | .arity => "arity" | .cmpArg i => s!"cmpArg{i}" | .cmpSame => "cmpSame"
   | .chCond => "chCond" | .chTrue => "chTrue" | .chSame => "chSame" | .staticPhys => "staticPhys"
+  | .staticOther => "staticOther" | .builtinCtx => "builtinCtx" | .posEnumValue => "posEnumValue"
   | .posStart => "posStart" | .posSize => "posSize" | .posArray => "posArray" | .posExist => "posExist"
   | .paramArray => "paramArray" | .paramKind => "paramKind" | .passArity => "passArity"
   | .passKind i => s!"passKind{i}"
   | .attrBool => "attrBool" | .attrConstBool => "attrConstBool" | .attrInt => "attrInt"
-  | .attrConst => "attrConst" | .attrStr => "attrStr"
+  | .attrConst => "attrConst" | .attrStr => "attrStr" | .attrString => "attrString"
 
 def showCrash : Crash → String
-  | .constRefOther => "constRefOther" | .arrayParamRef => "arrayParamRef"
-  | .passedTypeName => "passedTypeName" | .attrConstBoolExpr => "attrConstBoolExpr"
-  | .attrBackEnds => "attrBackEnds" | .attrSignedNotLiteral => "attrSignedNotLiteral"
-  | .cmpNone => "cmpNone" | .chNone => "chNone" | .compatNone => "compatNone"
+  | .paramTypeNone => "paramTypeNone" | .passedTypeNone => "passedTypeNone"
+  | .attrTypeNone => "attrTypeNone" | .attrSignedNotLiteral => "attrSignedNotLiteral"
 
 def showLoc (l : Loc) : String := toString l.id ++ (if l.syn then "s" else "")
 
 def showErr (e : Err) : String :=
-  showLoc e.l ++ ":" ++ showCls e.cls ++ (if e.bad then ":badfile" else "") ++
-    String.join (e.notes.map fun n => "+" ++ showLoc n)
+  showLoc e.l ++ "@" ++ toString e.file ++ ":" ++ showCls e.cls ++
+    String.join (e.notes.map fun n => "+" ++ showLoc n.2 ++ "@" ++ toString n.1)
 
 def showErrs (es : List Err) : String := ";".intercalate (es.map showErr)
 
@@ -179,10 +199,10 @@ def tokens (s : String) : List String := (s.splitOn " ").filter (· ≠ "")
 def handle (line : String) : String :=
   match tokens line with
   | "EXPR" :: ts =>
-    match pExpr ts with
-    | some (e, []) =>
-      let r := tc e
-      s!"ty={showTy r.ty} crash={match r.crash with | some c => showCrash c | none => "-"} errs={showErrs r.errs}"
+    match pFExpr ts with
+    | some ((f, e), []) =>
+      let r := tc f e
+      s!"ty={showTy r.ty} errs={showErrs r.errs}"
     | _ => "bad-op"
   | "TYPE" :: ts =>
     match pModule ts with
